@@ -205,3 +205,784 @@ Lemma zpow_zero_in n a p b : (0 <= n)%Z -> a <= p -> p <= b -> a <= 0 -> 0 <= b 
 Proof.
   intros Hn. rewrite !(zpow_nonneg_pw _ n Hn). apply pw_zero_in.
 Qed.
+
+(* ------------------------------------------------------------------ small facts *)
+Lemma from_bounds_in v x y : between v x y -> inI v (from_bounds x y).
+Proof. intro H. apply between_minmax in H. exact H. Qed.
+
+Lemma qminmax_wf x y : qmin x y <= qmax x y.
+Proof.
+  destruct (qmin_cases x y) as [[-> ?]|[-> ?]], (qmax_cases x y) as [[-> ?]|[-> ?]]; lra.
+Qed.
+Lemma from_bounds_wf x y : wf (from_bounds x y).
+Proof. apply qminmax_wf. Qed.
+
+Lemma qmin_le_l x y : qmin x y <= x.
+Proof. destruct (qmin_cases x y) as [[-> ?]|[-> ?]]; lra. Qed.
+Lemma qmin_le_r x y : qmin x y <= y.
+Proof. destruct (qmin_cases x y) as [[-> ?]|[-> ?]]; lra. Qed.
+Lemma qmax_ge_l x y : x <= qmax x y.
+Proof. destruct (qmax_cases x y) as [[-> ?]|[-> ?]]; lra. Qed.
+Lemma qmax_ge_r x y : y <= qmax x y.
+Proof. destruct (qmax_cases x y) as [[-> ?]|[-> ?]]; lra. Qed.
+
+Lemma qminmax3_wf x y z : qmin3 x y z <= qmax3 x y z.
+Proof.
+  unfold qmin3, qmax3.
+  pose proof (qmin_le_l (qmin x y) z). pose proof (qmin_le_l x y).
+  pose proof (qmax_ge_l (qmax x y) z). pose proof (qmax_ge_l x y). lra.
+Qed.
+
+Lemma Qabs_cases x : (x < 0 /\ Qabs x == - x) \/ (0 <= x /\ Qabs x == x).
+Proof.
+  destruct (Qlt_le_dec x 0) as [H|H]; [left|right]; split; auto.
+  - apply Qabs_neg. lra.
+  - apply Qabs_pos. assumption.
+Qed.
+
+Lemma is_fractional_zero e : e == 0 -> is_fractional e = false.
+Proof.
+  intro H. unfold is_fractional. rewrite (Qred_complete e 0 H). reflexivity.
+Qed.
+
+Lemma int_of_sign_nonneg e : ~ e < 0 -> (0 <= int_of e)%Z.
+Proof.
+  intro H. unfold int_of. pose proof (Qred_correct e) as R.
+  assert (0 <= Qred e) as H0 by (rewrite R; lra).
+  unfold Qle in H0. cbn in H0. lia.
+Qed.
+
+Lemma int_of_sign_neg e : e < 0 -> (int_of e < 0)%Z.
+Proof.
+  intro H. unfold int_of. pose proof (Qred_correct e) as R.
+  assert (Qred e < 0) as H0 by (rewrite R; lra).
+  unfold Qlt in H0. cbn in H0. lia.
+Qed.
+
+(* ------------------------------------------------------------------ the operations *)
+Section Ops.
+Variable sqrtK : Q -> Q.
+Variable logK : Q -> Q -> Q.
+Variable powK : Q -> Q -> Q.
+Local Notation ap := (ka_apply sqrtK logK powK).
+Local Notation spow := (s_pow powK).
+Local Notation slog := (s_log logK).
+Local Notation ssqrt := (s_sqrt sqrtK).
+
+Ltac inv_ok E := injection E as E; subst.
+
+(* --- + - * / by a number *)
+Lemma arith_between f a p b n v va vb :
+  a <= p -> p <= b ->
+  s_arith f a n = Ok va -> s_arith f b n = Ok vb -> s_arith f p n = Ok v ->
+  between v va vb.
+Proof.
+  intros H1 H2. destruct f; cbn; try discriminate.
+  - intros [= <-] [= <-] [= <-]. left. lra.
+  - intros [= <-] [= <-] [= <-]. left. lra.
+  - intros [= <-] [= <-] [= <-].
+    destruct (Qlt_le_dec n 0); [right|left]; nra.
+  - unfold s_div. destruct (qeqb_spec n 0) as [E|E]; try discriminate.
+    intros [= <-] [= <-] [= <-]. unfold Qdiv.
+    destruct (Qlt_le_dec n 0) as [Hn|Hn].
+    + pose proof (Qinv_lt_0_compat (- n) ltac:(lra)) as Hi.
+      rewrite inv_opp in Hi by assumption. revert Hi. generalize (/ n). intros. right. nra.
+    + pose proof (Qinv_lt_0_compat n ltac:(lra)) as Hi. revert Hi. generalize (/ n). intros. left. nra.
+Qed.
+
+Lemma arith_defined f a p n va : In f [FAdd; FSub; FMul; FDiv] ->
+  s_arith f a n = Ok va -> exists v, s_arith f p n = Ok v.
+Proof.
+  intros Hf. cbn in Hf. destruct Hf as [<-|[<-|[<-|[<-|[]]]]]; cbn; eauto.
+  unfold s_div. destruct (qeqb n 0); [discriminate|eauto].
+Qed.
+
+Lemma iv_num_op_encl f I n p J : In f [FAdd; FSub; FMul; FDiv] -> inI p I ->
+  iv_num_op f I n = Ok (VI J) ->
+  exists v, s_arith f p n = Ok v /\ inI v J.
+Proof.
+  intros Hf [H1 H2]. unfold iv_num_op.
+  destruct (s_arith f (lo I) n) as [va|] eqn:Ea; cbn; try discriminate.
+  destruct (s_arith f (hi I) n) as [vb|] eqn:Eb; cbn; try discriminate.
+  intros [= <-]. destruct (arith_defined f (lo I) p n va Hf Ea) as [v Ev].
+  exists v. split; [assumption|]. apply from_bounds_in.
+  exact (arith_between f (lo I) p (hi I) n v va vb H1 H2 Ea Eb Ev).
+Qed.
+
+Lemma iv_num_op_wf f I n J : iv_num_op f I n = Ok (VI J) -> wf J.
+Proof.
+  unfold iv_num_op.
+  destruct (s_arith f (lo I) n); cbn; try discriminate.
+  destruct (s_arith f (hi I) n); cbn; try discriminate.
+  intros [= <-]. apply from_bounds_wf.
+Qed.
+
+(* point operation on numbers, as dispatch runs it *)
+Lemma ap_num2 f x y : num_arity_ok f 2 = true ->
+  ap f [VN x; VN y] = match f with FInterval => Ok (VI (make_interval x y))
+                                 | FPm | FTol => Ok (VI (iv_plusminus x y))
+                                 | _ => run_num sqrtK logK powK f [x; y] end.
+Proof. destruct f; cbn; try discriminate; reflexivity. Qed.
+
+Lemma run_num_arith f p n : In f [FAdd; FSub; FMul; FDiv] ->
+  run_num sqrtK logK powK f [p; n] = (do q <- s_arith f p n; Ok (VN q)).
+Proof. intros Hf. cbn in Hf. destruct Hf as [<-|[<-|[<-|[<-|[]]]]]; reflexivity. Qed.
+
+Theorem encloses_arith_left f I x p J : In f [FAdd; FSub; FMul; FDiv] ->
+  wf I -> inI p I -> ap f [VI I; VN x] = Ok (VI J) ->
+  exists v, ap f [VN p; VN x] = Ok (VN v) /\ inI v J.
+Proof.
+  intros Hf _ Hp E.
+  assert (E' : iv_num_op f I x = Ok (VI J)).
+  { cbn in Hf. destruct Hf as [<-|[<-|[<-|[<-|[]]]]]; exact E. }
+  destruct (iv_num_op_encl f I x p J Hf Hp E') as (v & Ev & Hv).
+  exists v. split; [|assumption].
+  rewrite ap_num2 by (cbn in Hf; destruct Hf as [<-|[<-|[<-|[<-|[]]]]]; reflexivity).
+  assert (run_num sqrtK logK powK f [p; x] = Ok (VN v)) as R
+    by (rewrite run_num_arith by assumption; rewrite Ev; reflexivity).
+  cbn in Hf. destruct Hf as [<-|[<-|[<-|[<-|[]]]]]; exact R.
+Qed.
+
+(* the commutative registrations: number on the left, for + and * only *)
+Theorem encloses_arith_right f I x p J : In f [FAdd; FMul] ->
+  wf I -> inI p I -> ap f [VN x; VI I] = Ok (VI J) ->
+  exists v, ap f [VN x; VN p] = Ok (VN v) /\ inI v J.
+Proof.
+  intros Hf _ Hp E.
+  assert (Hf' : In f [FAdd; FSub; FMul; FDiv]) by (cbn in *; tauto).
+  assert (E' : iv_num_op f I x = Ok (VI J)).
+  { cbn in Hf. destruct Hf as [<-|[<-|[]]]; exact E. }
+  destruct (iv_num_op_encl f I x p J Hf' Hp E') as (v & Ev & Hv).
+  cbn in Hf. destruct Hf as [<-|[<-|[]]]; cbn in Ev; injection Ev as <-.
+  - exists (x + p). split; [reflexivity|]. destruct Hv. split; lra.
+  - exists (x * p). split; [reflexivity|]. destruct Hv. split; lra.
+Qed.
+
+Theorem unregistered_orders I x :
+  ap FSub [VN x; VI I] = Raise NoMatchingFunctionSignatureError /\
+  ap FDiv [VN x; VI I] = Raise NoMatchingFunctionSignatureError /\
+  ap FPow [VN x; VI I] = Raise NoMatchingFunctionSignatureError /\
+  ap FLog [VN x; VI I] = Raise NoMatchingFunctionSignatureError /\
+  ap FContains [VN x; VI I] = Raise NoMatchingFunctionSignatureError /\
+  ap FIn [VI I; VN x] = Raise NoMatchingFunctionSignatureError /\
+  (forall J, ap FAdd [VI I; VI J] = Raise NoMatchingFunctionSignatureError /\
+             ap FSub [VI I; VI J] = Raise NoMatchingFunctionSignatureError /\
+             ap FMul [VI I; VI J] = Raise NoMatchingFunctionSignatureError /\
+             ap FDiv [VI I; VI J] = Raise NoMatchingFunctionSignatureError /\
+             ap FPow [VI I; VI J] = Raise NoMatchingFunctionSignatureError /\
+             ap FMin [VI I; VI J] = Raise NoMatchingFunctionSignatureError /\
+             ap FMax [VI I; VI J] = Raise NoMatchingFunctionSignatureError).
+Proof. repeat split; reflexivity. Qed.
+
+Theorem div_by_zero I x : x == 0 -> ap FDiv [VI I; VN x] = Raise ZeroDivisionError.
+Proof.
+  intro H. change (iv_num_op FDiv I x = Raise ZeroDivisionError).
+  unfold iv_num_op. cbn [s_arith]. unfold s_div.
+  destruct (qeqb_spec x 0); [reflexivity|contradiction].
+Qed.
+
+(* --- unary minus, unary plus, abs *)
+Theorem encloses_neg I p J : wf I -> inI p I -> ap FSub [VI I] = Ok (VI J) ->
+  exists v, ap FSub [VN p] = Ok (VN v) /\ inI v J.
+Proof.
+  intros _ [H1 H2] E. change (Ok (VI (iv_flip I)) = Ok (VI J)) in E. injection E as <-.
+  exists (- p). split; [reflexivity|]. unfold inI, iv_flip; cbn. lra.
+Qed.
+
+Theorem encloses_pos I p J : wf I -> inI p I -> ap FAdd [VI I] = Ok (VI J) ->
+  exists v, ap FAdd [VN p] = Ok (VN v) /\ inI v J.
+Proof.
+  intros _ Hp E. change (Ok (VI I) = Ok (VI J)) in E. injection E as <-.
+  exists p. split; [reflexivity|assumption].
+Qed.
+
+Lemma iv_abs_in I p : inI p I -> inI (Qabs p) (iv_abs I).
+Proof.
+  intros [H1 H2]. unfold iv_abs, inI. cbn [lo hi].
+  pose proof (Qabs_cases (lo I)) as Ca. pose proof (Qabs_cases (hi I)) as Cb.
+  pose proof (Qabs_cases p) as Cp.
+  destruct (truthy (contains_q I 0)) eqn:T.
+  - apply truthy_contains in T. revert Ca Cb Cp.
+    generalize (Qabs (lo I)) as ua, (Qabs (hi I)) as ub, (Qabs p) as up. intros.
+    destruct (qmax_cases ua ub) as [[-> ?]|[-> ?]]; lra.
+  - assert (~ (lo I <= 0 /\ 0 <= hi I)) as Hz
+      by (intro Hc; apply truthy_contains in Hc; congruence).
+    revert Ca Cb Cp.
+    generalize (Qabs (lo I)) as ua, (Qabs (hi I)) as ub, (Qabs p) as up. intros.
+    destruct (qmax_cases ua ub) as [[-> ?]|[-> ?]], (qmin_cases ua ub) as [[-> ?]|[-> ?]];
+      lra.
+Qed.
+
+Lemma iv_abs_wf I : wf (iv_abs I).
+Proof.
+  unfold iv_abs, wf. cbn [lo hi].
+  pose proof (Qabs_nonneg (lo I)). pose proof (qmax_ge_l (Qabs (lo I)) (Qabs (hi I))).
+  destruct (truthy (contains_q I 0)); [lra|apply qminmax_wf].
+Qed.
+
+Theorem encloses_abs I p J : wf I -> inI p I -> ap FAbs [VI I] = Ok (VI J) ->
+  exists v, ap FAbs [VN p] = Ok (VN v) /\ inI v J.
+Proof.
+  intros _ Hp E. change (Ok (VI (iv_abs I)) = Ok (VI J)) in E. injection E as <-.
+  exists (Qabs p). split; [reflexivity|]. apply iv_abs_in. assumption.
+Qed.
+
+(* --- min, max *)
+Lemma iv_min_in I x p : inI p I -> inI (qmin p x) (iv_min I x).
+Proof.
+  intros [H1 H2]. unfold iv_min, inI.
+  destruct (qleb_spec (hi I) x); [|destruct (qleb_spec x (lo I))]; cbn [lo hi];
+    destruct (qmin_cases p x) as [[-> ?]|[-> ?]]; lra.
+Qed.
+Lemma iv_max_in I x p : inI p I -> inI (qmax p x) (iv_max I x).
+Proof.
+  intros [H1 H2]. unfold iv_max, inI.
+  destruct (qleb_spec (hi I) x); [|destruct (qleb_spec x (lo I))]; cbn [lo hi];
+    destruct (qmax_cases p x) as [[-> ?]|[-> ?]]; lra.
+Qed.
+Lemma iv_min_wf I x : wf I -> wf (iv_min I x).
+Proof.
+  unfold iv_min, wf. intro W.
+  destruct (qleb_spec (hi I) x); [|destruct (qleb_spec x (lo I))]; cbn [lo hi]; lra.
+Qed.
+Lemma iv_max_wf I x : wf I -> wf (iv_max I x).
+Proof.
+  unfold iv_max, wf. intro W.
+  destruct (qleb_spec (hi I) x); [|destruct (qleb_spec x (lo I))]; cbn [lo hi]; lra.
+Qed.
+
+Theorem encloses_min I x p J : wf I -> inI p I ->
+  (ap FMin [VI I; VN x] = Ok (VI J) ->
+     exists v, ap FMin [VN p; VN x] = Ok (VN v) /\ inI v J) /\
+  (ap FMin [VN x; VI I] = Ok (VI J) ->
+     exists v, ap FMin [VN x; VN p] = Ok (VN v) /\ inI v J).
+Proof.
+  intros _ Hp. split; intro E; change (Ok (VI (iv_min I x)) = Ok (VI J)) in E;
+    injection E as <-.
+  - exists (qmin p x). split; [reflexivity|]. apply iv_min_in. assumption.
+  - exists (qmin x p). split; [reflexivity|].
+    pose proof (iv_min_in I x p Hp) as [A B]. 
+    destruct (qmin_cases p x) as [[Ep ?]|[Ep ?]], (qmin_cases x p) as [[-> ?]|[-> ?]];
+      rewrite Ep in *; split; lra.
+Qed.
+
+Theorem encloses_max I x p J : wf I -> inI p I ->
+  (ap FMax [VI I; VN x] = Ok (VI J) ->
+     exists v, ap FMax [VN p; VN x] = Ok (VN v) /\ inI v J) /\
+  (ap FMax [VN x; VI I] = Ok (VI J) ->
+     exists v, ap FMax [VN x; VN p] = Ok (VN v) /\ inI v J).
+Proof.
+  intros _ Hp. split; intro E; change (Ok (VI (iv_max I x)) = Ok (VI J)) in E;
+    injection E as <-.
+  - exists (qmax p x). split; [reflexivity|]. apply iv_max_in. assumption.
+  - exists (qmax x p). split; [reflexivity|].
+    pose proof (iv_max_in I x p Hp) as [A B]. 
+    destruct (qmax_cases p x) as [[Ep ?]|[Ep ?]], (qmax_cases x p) as [[-> ?]|[-> ?]];
+      rewrite Ep in *; split; lra.
+Qed.
+
+(* --- ± and tol *)
+Lemma plusminus_spec x y : 
+  let J := iv_plusminus x y in
+  wf J /\ inI x J /\ inI (x - y) J /\ inI (x + y) J /\
+  (forall t, Qabs t <= Qabs y -> inI (x + t) J) /\
+  lo J == x - Qabs y /\ hi J == x + Qabs y.
+Proof.
+  cbn zeta. unfold iv_plusminus, from_bounds, inI, wf. cbn [lo hi].
+  pose proof (Qabs_cases y) as Cy.
+  assert (Ht : forall t, Qabs t <= Qabs y -> - Qabs y <= t /\ t <= Qabs y).
+  { intros t Ht. pose proof (Qabs_cases t). lra. }
+  destruct (qmin_cases (x - y) (x + y)) as [[-> ?]|[-> ?]],
+           (qmax_cases (x - y) (x + y)) as [[-> ?]|[-> ?]];
+    (split; [lra|]); (split; [split; lra|]); (split; [split; lra|]); (split; [split; lra|]);
+    (split; [intros t Ht'; destruct (Ht t Ht'); split; lra|]); split; lra.
+Qed.
+
+Theorem plusminus_ok f x y : In f [FPm; FTol] ->
+  exists J, ap f [VN x; VN y] = Ok (VI J) /\
+    wf J /\ inI x J /\ inI (x - y) J /\ inI (x + y) J /\
+    (forall t, Qabs t <= Qabs y -> inI (x + t) J) /\
+    lo J == x - Qabs y /\ hi J == x + Qabs y.
+Proof.
+  intro Hf. exists (iv_plusminus x y). split.
+  - cbn in Hf. destruct Hf as [<-|[<-|[]]]; reflexivity.
+  - apply plusminus_spec.
+Qed.
+
+(* --- size, lower, upper *)
+Theorem size_ok I : ap FSize [VI I] = Ok (VN (iv_size I)) /\ 0 <= iv_size I /\
+  (wf I -> iv_size I == hi I - lo I).
+Proof.
+  split; [reflexivity|]. unfold iv_size. split; [apply Qabs_nonneg|].
+  unfold wf. intro W. apply Qabs_pos. lra.
+Qed.
+
+Theorem lower_upper_ok I :
+  ap FLower [VI I] = Ok (VN (lo I)) /\ ap FUpper [VI I] = Ok (VN (hi I)).
+Proof. split; reflexivity. Qed.
+
+(* --- the constructors *)
+Theorem literal_ok a b :
+  (a <= b -> ap FInterval [VN a; VN b] = Ok (VI (mkI a b))) /\
+  (b < a -> ap FInterval [VN a; VN b] = Ok (VI (mkI 0 0))).
+Proof.
+  split; intro H.
+  - change (Ok (VI (make_interval a b)) = Ok (VI (mkI a b))). unfold make_interval.
+    destruct (qleb_spec a b); [reflexivity|contradiction].
+  - change (Ok (VI (make_interval a b)) = Ok (VI (mkI 0 0))). unfold make_interval.
+    destruct (qleb_spec a b); [lra|reflexivity].
+Qed.
+
+Lemma make_interval_wf a b : wf (make_interval a b).
+Proof. unfold make_interval, wf. destruct (qleb_spec a b); cbn [lo hi]; lra. Qed.
+
+(* --- sqrt *)
+Lemma iv_sqrt_inv I J : iv_sqrt sqrtK I = Ok (VI J) ->
+  0 <= lo I /\ 0 <= hi I /\ J = mkI (sqrtK (lo I)) (sqrtK (hi I)).
+Proof.
+  unfold iv_sqrt, has_negative, s_sqrt.
+  destruct (qltb_spec (lo I) 0); [discriminate|].
+  destruct (qltb_spec (hi I) 0); cbn; [discriminate|].
+  intros [= <-]. repeat split; lra.
+Qed.
+
+Theorem encloses_sqrt I p J : sqrt_monotone sqrtK -> wf I -> inI p I ->
+  ap FSqrt [VI I] = Ok (VI J) ->
+  exists v, ap FSqrt [VN p] = Ok (VN v) /\ inI v J.
+Proof.
+  intros M _ [H1 H2] E. change (iv_sqrt sqrtK I = Ok (VI J)) in E.
+  apply iv_sqrt_inv in E. destruct E as (Ha & Hb & ->).
+  exists (sqrtK p). split.
+  - change ((do q <- ssqrt p; Ok (VN q)) = Ok (VN (sqrtK p))). unfold s_sqrt.
+    destruct (qltb_spec p 0); [lra|reflexivity].
+  - split; cbn [lo hi]; apply M; lra.
+Qed.
+
+Lemma iv_sqrt_wf I J : sqrt_monotone sqrtK -> wf I -> iv_sqrt sqrtK I = Ok (VI J) -> wf J.
+Proof.
+  intros M W E. apply iv_sqrt_inv in E. destruct E as (Ha & Hb & ->).
+  unfold wf; cbn [lo hi]. apply M; [assumption|exact W].
+Qed.
+
+Theorem rejects_sqrt I p : inI p I -> p < 0 -> ap FSqrt [VI I] = Raise KaRuntimeError.
+Proof.
+  intros [H1 H2] Hp. change (iv_sqrt sqrtK I = Raise KaRuntimeError).
+  unfold iv_sqrt, has_negative. destruct (qltb_spec (lo I) 0); [reflexivity|lra].
+Qed.
+
+(* --- log *)
+Lemma s_log_ok x base v : slog x base = Ok v ->
+  0 < x /\ 0 < base /\ ~ base == 1 /\ v = logK base x.
+Proof.
+  unfold s_log. destruct (qleb_spec x 0); [discriminate|].
+  destruct (qleb_spec base 0); cbn [orb]; [discriminate|].
+  destruct (qeqb_spec base 1); [discriminate|].
+  intros [= <-]. repeat split; try lra; try assumption.
+Qed.
+
+Lemma s_log_def x base : 0 < x -> 0 < base -> ~ base == 1 -> slog x base = Ok (logK base x).
+Proof.
+  intros Hx Hb H1. unfold s_log. destruct (qleb_spec x 0); [lra|].
+  destruct (qleb_spec base 0); [lra|]. cbn [orb].
+  destruct (qeqb_spec base 1); [contradiction|reflexivity].
+Qed.
+
+Lemma iv_log_inv I base J : iv_log logK I base = Ok (VI J) ->
+  0 < base /\ ~ base == 1 /\ 0 < lo I /\ 0 < hi I /\
+  J = from_bounds (logK base (lo I)) (logK base (hi I)).
+Proof.
+  unfold iv_log. destruct (qleb_spec base 0); [discriminate|].
+  destruct (qleb_spec (lo I) 0); [discriminate|].
+  destruct (slog (lo I) base) as [va|] eqn:Ea; cbn; [|discriminate].
+  destruct (slog (hi I) base) as [vb|] eqn:Eb; cbn; [|discriminate].
+  apply s_log_ok in Ea. apply s_log_ok in Eb.
+  destruct Ea as (? & ? & ? & ->), Eb as (? & ? & ? & ->).
+  intros [= <-]. repeat split; try lra; try assumption.
+Qed.
+
+Lemma iv_log_encl I base p J : log_monotone logK -> inI p I ->
+  iv_log logK I base = Ok (VI J) ->
+  slog p base = Ok (logK base p) /\ inI (logK base p) J.
+Proof.
+  intros [Minc Mdec] [H1 H2] E. apply iv_log_inv in E.
+  destruct E as (Hb & Hb1 & Ha & Hh & ->).
+  split; [apply s_log_def; try assumption; lra|].
+  apply from_bounds_in.
+  destruct (Qlt_le_dec 1 base) as [Hgt|Hle].
+  - left. split; apply Minc; try assumption; lra.
+  - assert (base < 1) by (destruct (Qlt_le_dec base 1); [assumption|exfalso; apply Hb1; lra]).
+    right. split; apply Mdec; try assumption; lra.
+Qed.
+
+Lemma iv_log_wf I base J : iv_log logK I base = Ok (VI J) -> wf J.
+Proof.
+  intro E. apply iv_log_inv in E. destruct E as (_ & _ & _ & _ & ->). apply from_bounds_wf.
+Qed.
+
+Theorem encloses_log I base p J : log_monotone logK -> wf I -> inI p I ->
+  ap FLog [VI I; VN base] = Ok (VI J) ->
+  exists v, ap FLog [VN p; VN base] = Ok (VN v) /\ inI v J.
+Proof.
+  intros M _ Hp E. change (iv_log logK I base = Ok (VI J)) in E.
+  destruct (iv_log_encl I base p J M Hp E) as [Ev Hv].
+  exists (logK base p). split; [|assumption].
+  change ((do q <- slog p base; Ok (VN q)) = Ok (VN (logK base p))). rewrite Ev. reflexivity.
+Qed.
+
+Theorem encloses_ln I p J : log_monotone logK -> wf I -> inI p I ->
+  ap FLn [VI I] = Ok (VI J) -> exists v, ap FLn [VN p] = Ok (VN v) /\ inI v J.
+Proof.
+  intros M _ Hp E. change (iv_log logK I e_float = Ok (VI J)) in E.
+  destruct (iv_log_encl I e_float p J M Hp E) as [Ev Hv].
+  exists (logK e_float p). split; [|assumption].
+  change ((do q <- slog p e_float; Ok (VN q)) = Ok (VN (logK e_float p))). rewrite Ev. reflexivity.
+Qed.
+Theorem encloses_log2 I p J : log_monotone logK -> wf I -> inI p I ->
+  ap FLog2 [VI I] = Ok (VI J) -> exists v, ap FLog2 [VN p] = Ok (VN v) /\ inI v J.
+Proof.
+  intros M _ Hp E. change (iv_log logK I 2 = Ok (VI J)) in E.
+  destruct (iv_log_encl I 2 p J M Hp E) as [Ev Hv].
+  exists (logK 2 p). split; [|assumption].
+  change ((do q <- slog p 2; Ok (VN q)) = Ok (VN (logK 2 p))). rewrite Ev. reflexivity.
+Qed.
+Theorem encloses_log10 I p J : log_monotone logK -> wf I -> inI p I ->
+  ap FLog10 [VI I] = Ok (VI J) -> exists v, ap FLog10 [VN p] = Ok (VN v) /\ inI v J.
+Proof.
+  intros M _ Hp E. change (iv_log logK I 10 = Ok (VI J)) in E.
+  destruct (iv_log_encl I 10 p J M Hp E) as [Ev Hv].
+  exists (logK 10 p). split; [|assumption].
+  change ((do q <- slog p 10; Ok (VN q)) = Ok (VN (logK 10 p))). rewrite Ev. reflexivity.
+Qed.
+
+Lemma iv_log_rejects_point I base p : inI p I -> p <= 0 ->
+  iv_log logK I base = Raise KaRuntimeError.
+Proof.
+  intros [H1 H2] Hp. unfold iv_log. destruct (qleb_spec base 0); [reflexivity|].
+  destruct (qleb_spec (lo I) 0); [reflexivity|lra].
+Qed.
+
+Theorem rejects_log I p : inI p I -> p <= 0 ->
+  (forall base, ap FLog [VI I; VN base] = Raise KaRuntimeError) /\
+  ap FLn [VI I] = Raise KaRuntimeError /\
+  ap FLog2 [VI I] = Raise KaRuntimeError /\
+  ap FLog10 [VI I] = Raise KaRuntimeError.
+Proof.
+  intros Hp H0. repeat split; intros; eapply iv_log_rejects_point; eassumption.
+Qed.
+
+Theorem rejects_base I base : base <= 0 \/ base == 1 ->
+  ap FLog [VI I; VN base] = Raise KaRuntimeError.
+Proof.
+  intro H. change (iv_log logK I base = Raise KaRuntimeError). unfold iv_log.
+  destruct (qleb_spec base 0); [reflexivity|].
+  destruct H as [H|H]; [lra|].
+  destruct (qleb_spec (lo I) 0); [reflexivity|].
+  unfold s_log. destruct (qleb_spec (lo I) 0); [reflexivity|].
+  destruct (qleb_spec base 0); [lra|]. cbn [orb].
+  destruct (qeqb_spec base 1); [reflexivity|contradiction].
+Qed.
+
+(* --- powers *)
+Lemma s_pow_int x e : is_fractional e = false ->
+  spow x e = if qeqb x 0 && (int_of e <? 0)%Z then Raise ZeroDivisionError
+             else Ok (x ^ int_of e).
+Proof. intro H. unfold s_pow. rewrite H. reflexivity. Qed.
+
+Lemma s_pow_frac x e : is_fractional e = true ->
+  spow x e = if qltb x 0 then Raise KaRuntimeError
+             else if qeqb x 0 && qltb e 0 then Raise ZeroDivisionError
+             else Ok (powK x e).
+Proof. intro H. unfold s_pow. rewrite H. reflexivity. Qed.
+
+Lemma not_contains I : truthy (contains_q I 0) = false -> ~ (lo I <= 0 /\ 0 <= hi I).
+Proof. intros T Hc. apply truthy_contains in Hc. congruence. Qed.
+
+(* integer exponents: negative, zero, odd, even; interval negative, positive or across zero *)
+Theorem encloses_pow_int I e p J : is_fractional e = false -> wf I -> inI p I ->
+  ap FPow [VI I; VN e] = Ok (VI J) ->
+  exists v, ap FPow [VN p; VN e] = Ok (VN v) /\ inI v J /\ v = p ^ int_of e.
+Proof.
+  intros F W [H1 H2] E. change (iv_pow powK I e = Ok (VI J)) in E.
+  unfold iv_pow in E. rewrite F, andb_false_r in E.
+  destruct (truthy (contains_q I 0)) eqn:T.
+  - apply truthy_contains in T. destruct T as [Ta Tb].
+    destruct (qltb_spec e 0) as [He|He]; [discriminate|].
+    pose proof (int_of_sign_nonneg e He) as Hn.
+    assert (S : forall x, spow x e = Ok (x ^ int_of e)).
+    { intro x. rewrite s_pow_int by assumption.
+      replace (int_of e <? 0)%Z with false by (symmetry; apply Z.ltb_ge; lia).
+      rewrite andb_false_r. reflexivity. }
+    rewrite !S in E. cbn [bind] in E. injection E as <-.
+    exists (p ^ int_of e). split.
+    + change ((do q <- spow p e; Ok (VN q)) = Ok (VN (p ^ int_of e))). rewrite S. reflexivity.
+    + split; [|reflexivity]. unfold inI; cbn [lo hi]. apply zpow_zero_in; assumption.
+  - apply not_contains in T.
+    rewrite !s_pow_int in E by assumption.
+    destruct (qeqb (lo I) 0 && (int_of e <? 0)%Z); [discriminate|].
+    destruct (qeqb (hi I) 0 && (int_of e <? 0)%Z); [discriminate|].
+    cbn [bind] in E. injection E as <-.
+    assert (Hp : ~ p == 0) by (intro Hp; apply T; split; lra).
+    exists (p ^ int_of e). split.
+    + change ((do q <- spow p e; Ok (VN q)) = Ok (VN (p ^ int_of e))).
+      rewrite s_pow_int by assumption.
+      destruct (qeqb_spec p 0); [contradiction|]. reflexivity.
+    + split; [|reflexivity]. unfold inI; cbn [lo hi]. apply between_minmax.
+      apply zpow_between; assumption.
+Qed.
+
+(* non-integer exponents, under the monotonicity of x ** r *)
+Theorem encloses_pow_frac I e p J : pow_monotone powK -> is_fractional e = true ->
+  wf I -> inI p I -> ap FPow [VI I; VN e] = Ok (VI J) ->
+  exists v, ap FPow [VN p; VN e] = Ok (VN v) /\ inI v J /\ v = powK p e.
+Proof.
+  intros [Minc Mdec] F W [H1 H2] E. change (iv_pow powK I e = Ok (VI J)) in E.
+  unfold iv_pow, has_negative in E. rewrite F, andb_true_r in E.
+  destruct (qltb_spec (lo I) 0) as [Hn|Hn]; [discriminate|].
+  assert (He0 : ~ e == 0)
+    by (intro Z; rewrite (is_fractional_zero e Z) in F; discriminate).
+  assert (Sp : forall x, 0 <= x -> (0 < x \/ 0 < e) -> spow x e = Ok (powK x e)).
+  { intros x Hx Hd. rewrite s_pow_frac by assumption.
+    destruct (qltb_spec x 0); [lra|].
+    destruct (qeqb_spec x 0), (qltb_spec e 0); cbn [andb]; try reflexivity. lra. }
+  unfold wf in W.
+  destruct (truthy (contains_q I 0)) eqn:T.
+  - apply truthy_contains in T. destruct T as [Ta Tb].
+    destruct (qltb_spec e 0) as [He|He]; [discriminate|].
+    assert (0 < e) as Hpos by (destruct (Q_dec e 0) as [[?|?]|?]; [lra|assumption|contradiction]).
+    rewrite (Sp (lo I)), (Sp (hi I)), (Sp 0) in E by (try lra; right; assumption).
+    cbn [bind] in E. injection E as <-.
+    exists (powK p e). split.
+    + change ((do q <- spow p e; Ok (VN q)) = Ok (VN (powK p e))).
+      rewrite Sp by (try lra; right; assumption). reflexivity.
+    + split; [|reflexivity]. unfold inI, qmin3, qmax3; cbn [lo hi].
+      assert (powK (lo I) e <= powK p e) by (apply Minc; lra).
+      assert (powK p e <= powK (hi I) e) by (apply Minc; lra).
+      pose proof (qmin_le_l (qmin (powK (lo I) e) (powK (hi I) e)) (powK 0 e)).
+      pose proof (qmin_le_l (powK (lo I) e) (powK (hi I) e)).
+      pose proof (qmax_ge_l (qmax (powK (lo I) e) (powK (hi I) e)) (powK 0 e)).
+      pose proof (qmax_ge_r (powK (lo I) e) (powK (hi I) e)).
+      split; lra.
+  - apply not_contains in T.
+    assert (0 < lo I) as Ha.
+    { destruct (Qlt_le_dec 0 (lo I)); [assumption|]. exfalso. apply T. split; lra. }
+    rewrite (Sp (lo I)), (Sp (hi I)) in E by (try lra; left; lra).
+    cbn [bind] in E. injection E as <-.
+    exists (powK p e). split.
+    + change ((do q <- spow p e; Ok (VN q)) = Ok (VN (powK p e))).
+      rewrite Sp by (try lra; left; lra). reflexivity.
+    + split; [|reflexivity]. unfold inI; cbn [lo hi]. apply between_minmax.
+      destruct (Q_dec e 0) as [[He|He]|He]; [|..|contradiction].
+      * right. split; apply Mdec; lra.
+      * left. split; apply Minc; lra.
+Qed.
+
+Lemma iv_pow_wf I e J : iv_pow powK I e = Ok (VI J) -> wf J.
+Proof.
+  unfold iv_pow. destruct (has_negative I && is_fractional e); [discriminate|].
+  destruct (truthy (contains_q I 0)).
+  - destruct (qltb e 0); [discriminate|].
+    destruct (spow (lo I) e); cbn [bind]; [|discriminate].
+    destruct (spow (hi I) e); cbn [bind]; [|discriminate].
+    destruct (spow 0 e); cbn [bind]; [|discriminate].
+    intros [= <-]. apply qminmax3_wf.
+  - destruct (spow (lo I) e); cbn [bind]; [|discriminate].
+    destruct (spow (hi I) e); cbn [bind]; [|discriminate].
+    intros [= <-]. apply qminmax_wf.
+Qed.
+
+Theorem rejects_pow_negative I e : inI 0 I -> e < 0 ->
+  ap FPow [VI I; VN e] = Raise KaRuntimeError.
+Proof.
+  intros Hz He. change (iv_pow powK I e = Raise KaRuntimeError). unfold iv_pow.
+  destruct (has_negative I && is_fractional e); [reflexivity|].
+  apply truthy_contains in Hz. rewrite Hz.
+  destruct (qltb_spec e 0); [reflexivity|contradiction].
+Qed.
+
+Theorem rejects_pow_fractional I e p : inI p I -> p < 0 -> is_fractional e = true ->
+  ap FPow [VI I; VN e] = Raise KaRuntimeError.
+Proof.
+  intros [H1 H2] Hp F. change (iv_pow powK I e = Raise KaRuntimeError).
+  unfold iv_pow, has_negative. rewrite F.
+  destruct (qltb_spec (lo I) 0); [reflexivity|lra].
+Qed.
+
+(* --- comparisons mean "for all" *)
+Lemma b2q_ltb_1 x y : b2q (qltb x y) = 1 <-> x < y.
+Proof. rewrite b2q_1. destruct (qltb_spec x y); split; intro; auto; discriminate. Qed.
+Lemma b2q_leb_1 x y : b2q (qleb x y) = 1 <-> x <= y.
+Proof. rewrite b2q_1. destruct (qleb_spec x y); split; intro; auto; discriminate. Qed.
+
+Ltac cmp_cases Hf := cbn in Hf; destruct Hf as [<-|[<-|[<-|[<-|[]]]]].
+
+Theorem cmp_interval_number f I x : In f cmp_names -> wf I ->
+  exists r, ap f [VI I; VN x] = Ok (VN r) /\ (r = 0 \/ r = 1) /\
+            (r = 1 <-> forall p, inI p I -> cmp_rel f p x).
+Proof.
+  intros Hf W. unfold wf in W. cmp_cases Hf.
+  - exists (b2q (qltb (hi I) x)). split; [reflexivity|]. split; [apply b2q_01|].
+    rewrite b2q_ltb_1. cbn [cmp_rel]. split.
+    + intros H p [_ Hp]. lra.
+    + intro H. apply (H (hi I)). split; lra.
+  - exists (b2q (qleb (hi I) x)). split; [reflexivity|]. split; [apply b2q_01|].
+    rewrite b2q_leb_1. cbn [cmp_rel]. split.
+    + intros H p [_ Hp]. lra.
+    + intro H. apply (H (hi I)). split; lra.
+  - (* ">" : swap(num_interval["<"]) : x < lo I *)
+    exists (b2q (qltb x (lo I))). split; [reflexivity|]. split; [apply b2q_01|].
+    rewrite b2q_ltb_1. cbn [cmp_rel]. split.
+    + intros H p [Hp _]. lra.
+    + intro H. apply (H (lo I)). split; lra.
+  - exists (b2q (qleb x (lo I))). split; [reflexivity|]. split; [apply b2q_01|].
+    rewrite b2q_leb_1. cbn [cmp_rel]. split.
+    + intros H p [Hp _]. lra.
+    + intro H. apply (H (lo I)). split; lra.
+Qed.
+
+Theorem cmp_number_interval f x I : In f cmp_names -> wf I ->
+  exists r, ap f [VN x; VI I] = Ok (VN r) /\ (r = 0 \/ r = 1) /\
+            (r = 1 <-> forall p, inI p I -> cmp_rel f x p).
+Proof.
+  intros Hf W. unfold wf in W. cmp_cases Hf.
+  - exists (b2q (qltb x (lo I))). split; [reflexivity|]. split; [apply b2q_01|].
+    rewrite b2q_ltb_1. cbn [cmp_rel]. split.
+    + intros H p [Hp _]. lra.
+    + intro H. apply (H (lo I)). split; lra.
+  - exists (b2q (qleb x (lo I))). split; [reflexivity|]. split; [apply b2q_01|].
+    rewrite b2q_leb_1. cbn [cmp_rel]. split.
+    + intros H p [Hp _]. lra.
+    + intro H. apply (H (lo I)). split; lra.
+  - (* ">" : swap(interval_num["<"]) : hi I < x *)
+    exists (b2q (qltb (hi I) x)). split; [reflexivity|]. split; [apply b2q_01|].
+    rewrite b2q_ltb_1. cbn [cmp_rel]. split.
+    + intros H p [_ Hp]. lra.
+    + intro H. apply (H (hi I)). split; lra.
+  - exists (b2q (qleb (hi I) x)). split; [reflexivity|]. split; [apply b2q_01|].
+    rewrite b2q_leb_1. cbn [cmp_rel]. split.
+    + intros H p [_ Hp]. lra.
+    + intro H. apply (H (hi I)). split; lra.
+Qed.
+
+Theorem cmp_interval_interval f I J : In f cmp_names -> wf I -> wf J ->
+  exists r, ap f [VI I; VI J] = Ok (VN r) /\ (r = 0 \/ r = 1) /\
+            (r = 1 <-> forall p q, inI p I -> inI q J -> cmp_rel f p q).
+Proof.
+  intros Hf WI WJ. unfold wf in WI, WJ. cmp_cases Hf.
+  - exists (b2q (qltb (hi I) (lo J))). split; [reflexivity|]. split; [apply b2q_01|].
+    rewrite b2q_ltb_1. cbn [cmp_rel]. split.
+    + intros H p q [_ Hp] [Hq _]. lra.
+    + intro H. apply (H (hi I) (lo J)); split; lra.
+  - exists (b2q (qleb (hi I) (lo J))). split; [reflexivity|]. split; [apply b2q_01|].
+    rewrite b2q_leb_1. cbn [cmp_rel]. split.
+    + intros H p q [_ Hp] [Hq _]. lra.
+    + intro H. apply (H (hi I) (lo J)); split; lra.
+  - (* ">" : swap(interval_interval["<"]) : hi J < lo I *)
+    exists (b2q (qltb (hi J) (lo I))). split; [reflexivity|]. split; [apply b2q_01|].
+    rewrite b2q_ltb_1. cbn [cmp_rel]. split.
+    + intros H p q [Hp _] [_ Hq]. lra.
+    + intro H. apply (H (lo I) (hi J)); split; lra.
+  - exists (b2q (qleb (hi J) (lo I))). split; [reflexivity|]. split; [apply b2q_01|].
+    rewrite b2q_leb_1. cbn [cmp_rel]. split.
+    + intros H p q [Hp _] [_ Hq]. lra.
+    + intro H. apply (H (lo I) (hi J)); split; lra.
+Qed.
+
+(* the text `a > b` is evaluated as "<"(b, a) (parser flip): same answer as ">"(a, b) *)
+Theorem surface_flip_agrees a b :
+  (forall va vb, ap FGt [va; vb] = ap FLt [vb; va]) /\
+  (forall va vb, ap FGe [va; vb] = ap FLe [vb; va]) /\
+  surface_cmp FGt a b = E2 FLt b a /\ surface_cmp FGe a b = E2 FLe b a.
+Proof.
+  repeat split; intros va vb; destruct va, vb; reflexivity.
+Qed.
+
+(* --- membership *)
+Lemma contains_q_spec I x :
+  (contains_q I x = 0 \/ contains_q I x = 1) /\ (contains_q I x = 1 <-> inI x I).
+Proof.
+  unfold contains_q, inI.
+  destruct (qleb_spec (lo I) x), (qleb_spec x (hi I)); cbn; split; auto;
+    split; intro H; try discriminate; tauto.
+Qed.
+
+Theorem in_ok x I :
+  exists r, ap FIn [VN x; VI I] = Ok (VN r) /\ ap FContains [VI I; VN x] = Ok (VN r) /\
+            (r = 0 \/ r = 1) /\ (r = 1 <-> lo I <= x /\ x <= hi I).
+Proof.
+  exists (contains_q I x). split; [reflexivity|]. split; [reflexivity|]. apply contains_q_spec.
+Qed.
+
+(* --- == and != *)
+Theorem eq_neq_ok I J :
+  exists r s, ap FEq [VI I; VI J] = Ok (VN r) /\ ap FNe [VI I; VI J] = Ok (VN s) /\
+    (r = 0 \/ r = 1) /\ (s = 0 \/ s = 1) /\ r + s == 1 /\
+    (r = 1 <-> lo I == lo J /\ hi I == hi J) /\
+    (s = 1 <-> ~ (lo I == lo J /\ hi I == hi J)).
+Proof.
+  exists (iv_eq I J), (1 - iv_eq I J). split; [reflexivity|]. split; [reflexivity|].
+  unfold iv_eq.
+  destruct (qeqb_spec (lo I) (lo J)), (qeqb_spec (hi I) (hi J)); cbn;
+    (split; [auto|]); (split; [auto|]); (split; [reflexivity|]);
+    split; split; intro H; try discriminate; try tauto; reflexivity.
+Qed.
+
+(* --- every operation returns a well-formed interval *)
+Lemma num_fold_VN g l v : num_fold g l = Ok v -> exists q, v = VN q.
+Proof. destruct l; cbn; [discriminate|]. intros [= <-]. eauto. Qed.
+
+Lemma run_num_VN f xs v : run_num sqrtK logK powK f xs = Ok v -> exists q, v = VN q.
+Proof.
+  destruct f; try (apply num_fold_VN);
+    destruct xs as [|x [|y [|z r]]]; cbn [run_num]; try discriminate;
+    try (intros [= <-]; eauto; fail);
+    try (match goal with |- context [bind ?c _] => destruct c; cbn [bind]; [|discriminate] end;
+         intros [= <-]; eauto).
+Qed.
+
+Lemma run_body_wf b args v : sqrt_monotone sqrtK -> Forall wfv args ->
+  run_body sqrtK logK powK b args = Ok v -> wfv v.
+Proof.
+  intros M Hw.
+  assert (Hn : forall f l, run_num sqrtK logK powK f l = Ok v -> wfv v).
+  { intros f l E. apply run_num_VN in E. destruct E as [q ->]. exact Logic.I. }
+  destruct b; try (apply Hn);
+    destruct args as [|[x|A] [|[y|B] [|c r]]]; cbn [run_body]; try discriminate;
+    try (intros [= <-]; exact Logic.I);
+    repeat match goal with
+    | H : Forall wfv (_ :: _) |- _ => inversion H; subst; clear H
+    end; cbn [wfv] in *.
+  all: try (intro E; destruct v as [q|J]; [exact Logic.I|]; cbn [wfv]).
+  all: try (eapply iv_num_op_wf; eassumption).
+  all: try (eapply iv_pow_wf; eassumption).
+  all: try (eapply iv_log_wf; eassumption).
+  all: try (eapply iv_sqrt_wf; eassumption).
+  all: try (injection E as <-).
+  all: try assumption.
+  all: try (apply iv_abs_wf).
+  all: try (apply iv_max_wf; assumption).
+  all: try (apply iv_min_wf; assumption).
+  all: try (apply make_interval_wf).
+  all: try (apply from_bounds_wf).
+  - unfold iv_flip, wf in *. cbn [lo hi]. lra.
+Qed.
+
+Theorem apply_wf f args v : sqrt_monotone sqrtK -> Forall wfv args ->
+  ap f args = Ok v -> wfv v.
+Proof.
+  intros M Hw. unfold ka_apply. destruct (resolve f (map kind_of args)); [|discriminate].
+  apply run_body_wf; assumption.
+Qed.
+
+Theorem eval_wf e v : sqrt_monotone sqrtK -> eval sqrtK logK powK e = Ok v -> wfv v.
+Proof.
+  intro M. revert v. induction e as [q|f a IHa|f a IHa b IHb]; intro v; cbn [eval].
+  - intros [= <-]. exact Logic.I.
+  - destruct (eval sqrtK logK powK a) as [va|]; cbn [bind]; [|discriminate].
+    apply apply_wf; [assumption|]. constructor; [apply IHa; reflexivity|constructor].
+  - destruct (eval sqrtK logK powK a) as [va|]; cbn [bind]; [|discriminate].
+    destruct (eval sqrtK logK powK b) as [vb|]; cbn [bind]; [|discriminate].
+    apply apply_wf; [assumption|].
+    constructor; [apply IHa; reflexivity|]. constructor; [apply IHb; reflexivity|constructor].
+Qed.
+
+End Ops.
